@@ -43,6 +43,12 @@ ENTRIES = {
             "The fluctuation GLM is assumed to solve its score equations (measured on a reference fit, 1e-7*n); floating "
             "point is outside the theorems ('to numerical precision' = exact identity + measured residual).",
             "Lean 4 proof + translator (unit maps) + probe-based differential correspondence", "DESIGN.md §6 C03"),
+    'C04': ('Lean theorems (only assumption: the chooser returns m distinct members of its argument): the split procedure yields n_splits pairwise-disjoint parts whose concatenation is a permutation of the rows, sizes floor(n/k) with the remainder in the last part (difference < k); the pairing indices (Python negative indexing made explicit) never pair a part with itself (k >= 2) and give three distinct parts for the double variant (k >= 3); in the modelled fit/predict schedule every row is predicted exactly once per nuisance and never by a copy whose training rows contain it. Spy learners carrying row ids: the model must reproduce the exact call trace of all four estimators; leak-freeness evaluated directly on the trace.',
+            'DataFrame.sample enters as the chooser (reference invocation measured); determinism for a fixed random_state and independence of deepcopy copies are tested on the implementation, not proved.',
+            'Lean 4 proof (list permutations, modular arithmetic by omega) + trace correspondence', 'DESIGN.md §6 C04'),
+    'C05': ("Lean theorems: the IPTW weight formula regenerated from iptw_calculator equals the documented weights in all 6 cells (SMR weights as odds, bounded version at the clipped probabilities); outcome-IPMW; the stochastic numerator is the plan probability of the treatment received under the selecting condition; monotone IPMW weight = numerator / product of the conditional observation probabilities with the code's uniform shortcuts, fitting sets = rows observed on the previous variable, unobserved rows get none, weights recover n under saturated fits; IPCW weight = within-subject running product in time order independent of other subjects, sort step, uncensored-indicator characterization (long and flat paths). Differential check against reference maximum-likelihood fits made by the harness with the documented arguments.",
+            'Logistic MLE assumed to exist and be what statsmodels returns (score equations measured).',
+            'Lean 4 proof over translated source + differential correspondence', 'DESIGN.md §6 C05'),
     'C06': ("Lean theorems on the executed interval definitions (linear / log scale limits, containment for z,se >= 0, "
             "nestedness in z, z(alpha) = ppf(1-alpha/2) nonnegative and antitone for a strictly increasing ppf with "
             "ppf(1/2)=0, hence nestedness in alpha) and on the calculators generated from zepid/calc/utils.py (limits are "
@@ -69,6 +75,9 @@ ENTRIES = {
             "GLM fits assumed to solve their score equations (measured; rank-deficient designs discarded); stable sort and "
             "patsy NaN handling are glue reached by the differential gates only.",
             "Lean 4 proof (induction over time points, stratum regrouping) + differential correspondence", "DESIGN.md §6 C12"),
+    'C14': ("Lean theorems: for pairwise-exclusive conditions the per-row plan probability (StochasticIPTW numerator and estimate, StochasticTMLE clever covariate, Monte-Carlo assignment as a function of the captured draws) is invariant under any permutation of the (condition, p) list; p = 1 / p = 0 reduce StochasticIPTW to the unstabilized IPTW arm mean and the stochastic g-formula to fit('all') / fit('none') (int(1.0 n) = n); with a saturated treatment model StochasticIPTW equals the stratum mixture exactly; for any draw the simulating estimators equal the mixture at the realised treated fractions (mean over resamples = mixture at the mean fraction). Draws captured by wrapping numpy's RNG and replayed under every listing order.",
+            "The seed-to-draw map of numpy is outside the model: 'within Monte Carlo error' is replaced by the exact identity at the realised fractions; |realised - nominal| is only reported.",
+            'Lean 4 proof (List.Perm induction, stratum regrouping) + differential correspondence', 'DESIGN.md §6 C14'),
     'C15': ("Lean theorems, any field / any number of rows / any weights and fitted values: the estimating function is "
             "rha - lhm*psi with exactly the matrices _closed_form_solver_ assembles (given A*A = A); any solution of the "
             "linear system is an exact root and conversely; the modelled solve (Cramer, p <= 3) returns a root, fails iff "
@@ -86,7 +95,10 @@ ENTRIES = {
             "influence any of the three (map-invariance theorem). Differential check on the implementation's fitted "
             "values, exact closed form, junk-outcome variant.",
             "GLM fits assumed to solve their score equations (measured).",
-            "Lean 4 proof + translator + differential correspondence", "DESIGN.md §6 C16"),    'C18': ("Lean theorems for every finite graph, node/arrow order and op sequence: executable reachability = reflexive-"
+            "Lean 4 proof + translator + differential correspondence", "DESIGN.md §6 C16"),    'C17': ("Lean theorems: probability_bounds' accept/reject table in the code's branch order; the result is the elementwise clip (new list, same length), lands in [lo, hi], is idempotent and the identity on values inside; an unreached bound is a no-op for the six estimator use-site models; weights at clipped probabilities are bounded by 1/lo resp. 1/(1-hi). Container sweep with before/after snapshots (no mutation, no shared memory), 55 bound forms, every estimator site run unbounded / unreached / reached.",
+            "'Input untouched', container types and read-only buffers are Python aliasing: decided on the real code by gate D, not by a theorem.",
+            'Lean 4 proof + differential correspondence', 'DESIGN.md §6 C17'),
+    'C18': ("Lean theorems for every finite graph, node/arrow order and op sequence: executable reachability = reflexive-"
             "transitive closure of the edge relation; the code's six-step check = the moral-graph back-door criterion "
             "(no descendant of the exposure in the set; exposure and outcome disconnected in the moral graph of the "
             "ancestral part minus the set), invariant under reordering; a set is listed iff admissible; minimal sets = "
@@ -96,7 +108,21 @@ ENTRIES = {
             "seeded larger graphs, a malformed stream; independent path-blocking oracle for gate D.",
             "Equivalence of the moral-graph criterion with path-blocking d-separation is tested by compiled evaluation on "
             "all DAGs <= 5 nodes, not proved; networkx reachability measured (gate H).",
-            "Lean 4 proof (induction on edge lists / op sequences) + differential correspondence", "DESIGN.md §6 C18"),
+            "Lean 4 proof (induction on edge lists / op sequences) + differential correspondence", "DESIGN.md §6 C18"),    'C19': ("Lean theorems on the Frechet-bound expressions regenerated from RiskDifference.fit: rows + a completion of the "
+            "unobserved potential outcomes are linked to counts; for every completion lower <= causal RD <= upper; both ends "
+            "are attained by explicit completions; width is one; the crude RD lies inside (binary exposure). Exhaustive 2x2 "
+            "tables (cells 0..6 / 0..8) with missing rows, exact rational comparison, literal enumeration of all completions on "
+            "small tables.",
+            "For multi-level exposures the code's bounds concern 'level i versus not i' (pooled comparison), modelled as such.",
+            "Lean 4 proof over translated source + differential correspondence", "DESIGN.md §6 C19"),
+    'C20': ("Lean theorems: KFold without shuffle holds each row out exactly once with train = complement; in the fit schedule every "
+            "cross-validated prediction comes from a clone that never saw the row; thresholded-normalised nnls coefficients are "
+            ">= 0 and sum to 1 whenever they exist (NaN iff all are below the threshold = known finding F21); discrete = one-hot "
+            "at a maximal weight; predict = coefficient-weighted combination (logit scale for nloglik) and lies in the hull of the "
+            "retained candidates; the stepwise search (AIC oracle, fuel p+1) returns an AIC <= the starting AIC with no admissible "
+            "single step strictly better. Spy candidates with row ids; sm.GLM wrapped at run time to log (columns -> AIC).",
+            "nnls and KFold are parameters with measured behaviour; Float execution of the nloglik predict is execution only.",
+            "Lean 4 proof (induction over folds / search steps) + trace correspondence", "DESIGN.md §6 C20"),
 }
 
 NOT_APPLICABLE = {}
